@@ -2,6 +2,7 @@ package wit
 
 import (
 	"net/http"
+	"sort"
 	"strings"
 
 	"github.com/nyaruka/gocommon/httpx"
@@ -44,7 +45,16 @@ func (s *service) Classify(env envs.Environment, input string, logHTTP flows.HTT
 		result.Intents[i] = flows.ExtractedIntent{Name: intent.Name, Confidence: intent.Confidence}
 	}
 
-	for nameAndRole, entity := range response.Entities {
+	// the same entity can come with several roles (e.g. location:from and location:to) which all become the same name
+	// here, so take them in a fixed order rather than the order of the map
+	namesAndRoles := make([]string, 0, len(response.Entities))
+	for nameAndRole := range response.Entities {
+		namesAndRoles = append(namesAndRoles, nameAndRole)
+	}
+	sort.Strings(namesAndRoles)
+
+	for _, nameAndRole := range namesAndRoles {
+		entity := response.Entities[nameAndRole]
 		name := strings.Split(nameAndRole, ":")[0]
 		entities := make([]flows.ExtractedEntity, 0, len(entity))
 		for _, candidate := range entity {
